@@ -107,6 +107,9 @@ type stratum struct {
 // strata of the quick sample. Quotas add up to ~60; a face already chosen is not chosen again, so
 // later (broader) strata fill with faces the narrow ones did not take.
 var quickStrata = []stratum{
+	// every gvar face with three or more axes is always part of the quick sample (multi-axis tuple
+	// interactions exist only there; the corpus has about ten, all but one tiny)
+	{"gvar-3-or-more-axes", 1 << 20, func(t *faceTraits) bool { return t.Fvar && t.Gvar && t.NAxes >= 3 && !t.Huge }},
 	{"glyf-anchored-composite", 3, func(t *faceTraits) bool { return t.Anchored && !t.Huge }},
 	{"glyf-scaled-composite", 3, func(t *faceTraits) bool { return t.Scaled && !t.Huge }},
 	{"glyf-scaled-offset", 1, func(t *faceTraits) bool { return t.ScaledOffset && !t.Huge }},
